@@ -315,4 +315,64 @@ impl Parent {
 #[allow(missing_docs, unused_imports, dead_code, clippy::all, clippy::pedantic, clippy::nursery)]
 pub mod verif_hooks {
     use super::*;
+    use crate::repository::{IndexedTree, Repository};
+    use std::path::PathBuf;
+
+    pub use super::Parent;
+
+    /// Item fed to `Parent::process` (a `TreeType` without the reader).
+    #[derive(Debug, Clone)]
+    pub enum Item {
+        NewTree(Node, OsString),
+        EndTree,
+        Other(Node),
+    }
+
+    /// What `Parent::process` returned, flattened.
+    #[derive(Debug, Clone)]
+    pub enum Out {
+        /// `NewTree` with `Matched(subtree)` / `NotFound` / `NotMatched`
+        NewTree(&'static str, Option<TreeId>),
+        EndTree,
+        /// `Other` with the (possibly content-filled) node and `Matched` / `NotFound` / `NotMatched`
+        Other(Node, &'static str),
+        /// `Err(TreeStackEmptyError)`
+        StackEmpty,
+    }
+
+    fn kind<T>(r: &ParentResult<T>) -> &'static str {
+        match r {
+            ParentResult::Matched(_) => "M",
+            ParentResult::NotFound => "NF",
+            ParentResult::NotMatched => "NM",
+        }
+    }
+
+    /// `Parent::new` on the backend and index of an indexed repository.
+    pub fn new_parent<S: IndexedTree>(
+        repo: &Repository<S>,
+        trees: Vec<TreeId>,
+        ignore_ctime: bool,
+        ignore_inode: bool,
+    ) -> Parent {
+        Parent::new(repo.dbe(), repo.index(), trees, ignore_ctime, ignore_inode)
+    }
+
+    /// `Parent::process` for one item.
+    pub fn process<S: IndexedTree>(parent: &mut Parent, repo: &Repository<S>, item: Item) -> Out {
+        let item: TreeType<(), OsString> = match item {
+            Item::NewTree(node, name) => TreeType::NewTree((PathBuf::new(), node, name)),
+            Item::EndTree => TreeType::EndTree,
+            Item::Other(node) => TreeType::Other((PathBuf::new(), node, ())),
+        };
+        match parent.process(repo.dbe(), repo.index(), item) {
+            Err(_) => Out::StackEmpty,
+            Ok(TreeType::NewTree((_, _, r))) => {
+                let k = kind(&r);
+                Out::NewTree(k, if let ParentResult::Matched(id) = r { Some(id) } else { None })
+            }
+            Ok(TreeType::EndTree) => Out::EndTree,
+            Ok(TreeType::Other((_, node, ((), r)))) => Out::Other(node, kind(&r)),
+        }
+    }
 }
